@@ -133,3 +133,22 @@ Print Assumptions C10_leaf_keyable.
 Theorem C10_leaf_final_choice : forall haskey exclusive, final_src haskey exclusive = final_choice haskey exclusive.
 Proof. exact final_choice_agree. Qed.
 Print Assumptions C10_leaf_final_choice.
+
+(* KF-56: "when the condition does not hold, dispatch continues as if that method were absent" is false of the faithful
+   model: ranks are formed from the declared types before any condition is looked at.  Classes: 0 object, 2 int below 5,
+   4 B below 3 A.  f(x: int, y: B), f(x: Literal[7], y: B), f(x: Dependent[5, c], y: A) with c(1) true: f(1, B()) runs the
+   third method -- the Literal method, whose condition fails for 1, dominates the int method and keeps it out of the first
+   rank -- while the function WITHOUT the Literal method is ambiguous for the same call. *)
+Definition wh56 : hier :=
+  {| h_supers := [[0]; [0; 1]; [0; 2; 5]; [0; 3]; [0; 3; 4]; [0; 5]]; h_meths := []; h_preds := []; h_fresh := [0] |}.
+Definition ut56 (f : nat) (v : val) : bool := match f, v with 10, VInt z => Z.eqb z 1 | _, _ => false end.
+Definition m_int := mkMeth 1 [Cls 2; Cls 4] [] 2 [] 0 0.
+Definition m_lit := mkMeth 2 [Lit [VInt 7] (Cls 0); Cls 4] [] 2 [] 0 0.
+Definition m_cond := mkMeth 3 [Fn 10 [] (Cls 5); Cls 3] [] 2 [] 0 0.
+Definition k56 := mkKey [Cls 2; Cls 4] [].
+Definition a56 := [(SPos 0, VInt 1); (SPos 1, VObj 4 0)].
+Theorem C10_absent_refuted :
+  dcall (hsub wh56) (hhasm wh56) (hchk wh56) (hfresh wh56) ut56 [m_int; m_lit; m_cond] k56 a56 = DRun 3 /\
+  dcall (hsub wh56) (hhasm wh56) (hchk wh56) (hfresh wh56) ut56 [m_int; m_cond] k56 a56 = DAmbig [1; 3].
+Proof. vm_compute. split; reflexivity. Qed.
+Print Assumptions C10_absent_refuted.
